@@ -824,6 +824,9 @@ func (s *Session) evalCall(se *SpecEnv, x *SCall) Val {
 		case "strcat": // strcat(a, b): the concatenation a + b of two strings (the engine's uninterpreted concatenation)
 			a := s.evalSpec(se, x.Args[0])
 			b := s.evalSpec(se, x.Args[1])
+			// (length and left-cancellation facts about strcat are stated once, in the preamble)
+			s.declFun("strdrop", []string{SInt, SInt}, SInt)
+			s.declFun("strlen", []string{SInt}, SInt)
 			return scalar(types.Typ[types.String], s.uf("strcat", SInt, a.T0(), b.T0()))
 		case "lastnow": // nanosecond reading of the most recent time.Now() call
 			return untypedInt(Select(s.ghostGet(se.st, "evres"), s.strLit("time.Now")))
@@ -909,7 +912,15 @@ func (s *Session) evalCall(se *SpecEnv, x *SCall) Val {
 			for _, a := range x.Args[1:] {
 				args = append(args, s.materialize(s.evalSpec(se, a)).L...)
 			}
-			return scalar(types.Typ[types.String], s.uf("pure:"+name, SInt, args...))
+			gr := s.uf("pure:"+name, SInt, args...)
+			if strings.HasPrefix(name, "path.Join#0") {
+				// path.Join of string literals only: the literal the real function returns (a fact about the library
+				// function, stated for the engine's uninterpreted symbol so that code and contract meet)
+				if r, ok := s.foldPathJoin(args); ok {
+					s.assume(Eq(gr, r))
+				}
+			}
+			return scalar(types.Typ[types.String], gr)
 		case "euf", "eufb": // engine-level uninterpreted function by its raw name (e.g. "parseuint")
 			name := x.Args[0].(*SStr).V
 			var args []T
